@@ -93,7 +93,7 @@ CHECKS['C03'] = ('fault_enumeration', 'exhaustive fault injection (cancel at eve
     'Monitors only (no model). Two open known findings (first() leaking its scope signal; closed task iterating an externally held interval()/delay() iterator).',
     'DESIGN.md section 3 C03')
 CHECKS['C02'] = ('model_checking', 'explicit-state BFS over the two real wait-queue classes against a reference; differential execution of an enumerated corpus under 10 interpreter configurations (wait-queue backend, -O, hash seeds, heap perturbation, cyclic collector never / after every activation) and under all iteration orders of injected unordered containers',
-    '(a) all push/pop sequences to depth 7/10 are applied in lock-step to HQWaitQueue, SDWaitQueue and a dict reference with state deduplication on canonical content; (b) every corpus program (strided union of all native families), fault-free and with a cancel at every activation boundary, '
+    '(a) all push/pop sequences over 8 keys to depth 10/12 are applied in lock-step to HQWaitQueue, SDWaitQueue and a dict reference; visited states are keyed by canonical content plus the heap layout plus every other attribute of both real queue objects (hidden state such as caches); (b) every corpus program (strided union of all native families), fault-free and with a cancel at every activation boundary, '
     'is executed in fresh processes under {heap, SD} x {debug, -O} x PYTHONHASHSEED {0,1,2} x 3 heap-perturbation patterns x cyclic collector never / after every activation and the full log/activation digests must be identical; (c) set/frozenset/WeakSet constructed by usim code are replaced by containers whose iteration order the explorer chooses (all orders up to 3 elements) and the digests must not depend on it; '
     'the FIFO order of the loop is monitored on every execution of every check.',
     'Address-dependent layout itself is not enumerable; its effect (iteration order) is. Set literals would escape the injection and are listed by an AST scan in the evidence (none today).',
